@@ -150,7 +150,14 @@ pub fn template(flavour: &str, big: bool) -> Vec<u8> {
         misc.process_integrity_level = Some(0x2000);
         misc.process_execute_flags = Some(1);
         misc.protected_process = Some(0);
-        misc.time_zone = Some(synth::MiscFieldsTimeZone::default());
+        // valid transition dates, so that printing them goes all the way (a zeroed SYSTEMTIME is "<invalid date>")
+        let mut tz = synth::MiscFieldsTimeZone::default();
+        tz.time_zone_id = 2;
+        tz.time_zone.bias = 480;
+        tz.time_zone.standard_date = vf_common::format::SYSTEMTIME { year: 2021, month: 11, day_of_week: 0, day: 7, hour: 2, minute: 0, second: 0, milliseconds: 0 };
+        tz.time_zone.daylight_date = vf_common::format::SYSTEMTIME { year: 2021, month: 3, day_of_week: 0, day: 14, hour: 2, minute: 0, second: 0, milliseconds: 0 };
+        tz.time_zone.daylight_bias = -60;
+        misc.time_zone = Some(tz);
         let mut bs = synth::MiscFieldsBuildString::default();
         for (i, u) in "19041.1.amd64fre".encode_utf16().enumerate() {
             bs.build_string[i] = u;
